@@ -393,6 +393,9 @@ class Model(Object):
         for attr in self.__dict__:
             if attr not in do_not_copy_by_ref:
                 new.__dict__[attr] = self.__dict__[attr]
+        # it doesn't make sense to retain the context of a copied model so
+        # assign a new empty context, before the copy is populated
+        new._contexts = []
         new.notes = deepcopy(self.notes)
         new.annotation = deepcopy(self.annotation)
         new._compartments = copy(self._compartments)
@@ -477,10 +480,6 @@ class Model(Object):
             # Cplex has an issue with deep copies
         except Exception:  # pragma: no cover
             new._solver = copy(self.solver)  # pragma: no cover
-
-        # it doesn't make sense to retain the context of a copied model so
-        # assign a new empty context
-        new._contexts = []
 
         return new
 
